@@ -87,8 +87,9 @@ class Panoptica_Aggregator:
 
         # one buffer file per output file: aggregators writing to different files in the
         # same directory must not share (or delete) each other's list of claimed subjects
+        # (the buffer file does not end in .tsv, so it can never be the output file of another aggregator)
         out_buffer_file: Path = Path(out_file_path).parent.joinpath(
-            Path(out_file_path).stem + "_panoptica_aggregator_tmp.tsv"
+            Path(out_file_path).name + ".panoptica_aggregator_tmp"
         )
         self.__output_buffer_file = out_buffer_file
 
